@@ -692,7 +692,7 @@ class ASL(UnaryOp):
         result = ((arg << 1) + carry) & 0xFFFF
 
         vm.flag_carry = bool(arg & 0x8000)
-        vm.flag_overflow = bool(arg & 0x8000 and not result & 0x8000)
+        vm.flag_overflow = bool(arg & 0x8000) != bool(arg & 0x4000)
 
         return result
 
